@@ -353,6 +353,20 @@ func (x *c13) runUDP(tier string, caseNo int) {
 	for st := 0; st < steps && len(x.rec.Violations()) == 0; st++ {
 		x.rec.SetStep(st)
 		op := rng.Intn(9)
+		if x.ts.bindW[2] == 1 && x.ts.bindW[0] == 0 && rng.Intn(2) == 0 {
+			// refused for ever: writes spread over more than the binding refresh interval (5 min),
+			// then a few in a row
+			i := rng.Intn(npeers)
+			_ = write(i)
+			time.Sleep(pick(rng, []time.Duration{5*time.Minute + 20*time.Second, 11 * time.Minute}))
+			for k := 0; k < 4; k++ {
+				_ = write(i)
+				time.Sleep(time.Duration(rng.Intn(40)) * time.Millisecond)
+			}
+			x.rec.FP("writeto/bind-refused-for-ever")
+
+			continue
+		}
 		if x.ts.bindW[4] == 1 && x.ts.bindW[0] == 0 && rng.Intn(2) == 0 {
 			// blackout: alternate writes and waits long enough for whole transactions to time out
 			_ = write(rng.Intn(npeers))
@@ -869,6 +883,12 @@ func runC13(t *testing.T, rng *rand.Rand, rec *sim.Rec, tier string, caseNo int)
 		ts.permW, ts.bindW = [5]int{8, 1, 1, 2, 0}, [5]int{6, 0, 2, 2, 2}
 	default:
 		ts.permW, ts.bindW = [5]int{10, 0, 0, 4, 0}, [5]int{10, 0, 0, 4, 0}
+	}
+	if caseNo%7 == 4 {
+		// every ChannelBind is refused (403 Forbidden), for ever: however long the socket is in
+		// use and whatever the client retries, no ChannelData may appear on a number the server
+		// never confirmed
+		ts.permW, ts.bindW = [5]int{1, 0, 0, 0, 0}, [5]int{0, 0, 1, 0, 0}
 	}
 	if caseNo%7 == 5 {
 		// ChannelBind blackout: the server never answers a ChannelBind. Whatever the client retries,
